@@ -3,6 +3,7 @@ import ast
 import json
 import os
 import re
+from fractions import Fraction
 
 from .. import form, q, symeval, trace
 from ..core import AnalysisError, const, dotted, norm, calls_in, call_name, parent_map
@@ -275,16 +276,86 @@ def check_parse_numbers(ctx):
             three = True
     ctx.ob("C13.3", site, three, "more than three colon-separated pieces are rejected", loc=prog.loc(m, f),
            msg="a vector such as 0:6:6:12 is no longer rejected: it is silently read as start:step:end")
-    src = norm(f)
-    ok = "end = float(colonList[-1]) + stepSign * 0.0001" in src and "stepSign = step / abs(step)" in src
-    ctx.ob("C13.6", site, ok, "the end point of a:b / a:s:b is included (signed epsilon before arange)", loc=prog.loc(m, f), msg="the end-point epsilon changed")
-    ok = "date = get_date(date, step)" in src and "while date <= max(start, end):" in src
-    ctx.ob("C13.6", site, ok, "date ranges step with calendar arithmetic (get_date)", loc=prog.loc(m, f), msg="date ranges no longer step through get_date")
+    # semantic form of the grammar, from the event trace with the comma loop unrolled twice:
+    #   group k = numbers.split(',')[k];  pieces = group.split(':');  single piece -> float(piece);
+    #   arange(start=piece[0], end=piece[-1] + sign(step)*eps, step=(piece[1] if 3 pieces else 1)), dates: get_date(min(start,end)..., step)
+    # and group 2 is parsed from its own pieces only (no state carried over from group 1).
+    tr = trace.trace(prog, site)
+    singles = [e for e in trace.calls(tr, "values.append")]
+    ar = [e for e in trace.calls(tr, "numpy.arange")]
+    gd_calls = [e for e in trace.calls(tr, "verif.util.get_date")]
+    ctx.need(len(singles) >= 2 and len(ar) >= 2 and len(gd_calls) >= 2, "%s: append/arange/get_date events of two comma groups not found" % site)
+
+    def pieces_of(e):
+        a0 = e["args"][0].as_atom() if isinstance(e["args"][0], Rat) else None
+        if a0 is None or a0.func != "getitem" or not isinstance(a0.args[0], Rat) or not isinstance(a0.args[1], Rat) or a0.args[1].const_value() != 0:
+            return None
+        P = a0.args[0].as_atom()
+        if P is None or P.func != "m:split" or len(P.args) != 2 or not isinstance(P.args[0], Rat) or P.args[1].key() != "str:':'()":
+            return None
+        G = P.args[0].as_atom()
+        if G is None or not G.func.startswith("elem#") or not isinstance(G.args[0], Rat):
+            return None
+        src_ = G.args[0].as_atom()
+        if src_ is None or src_.func != "call:numbers.split" or src_.args[0].key() != "str:','()":
+            return None
+        return Rat.of_atom(P), G
+    grammar_ok = True
+    groups = {}
+    for e in singles[:2]:
+        r = pieces_of(e)
+        if r is None:
+            grammar_ok = False
+        else:
+            groups[e["iter"][0]] = r
+    ctx.ob("C13.6", site, grammar_ok and set(groups) == {1, 2}, "comma separates items, colon separates start[:step]:end; a single piece is the number itself",
+           loc=prog.loc(m, singles[0]["node"]), msg="a single number is appended as %s" % str(singles[0]["args"][0])[:120])
+    for e in ar[:2]:
+        k = e["iter"][0]
+        if k not in groups:
+            continue
+        P, G = groups[k]
+        piece = lambda j: form.apply("getitem", [P, Rat.const(j)])
+        want_step = form.apply("ifexp", [form.apply("cmp_eq", [form.apply("len", [P]), Rat.const(3)]), piece(1), Rat.const(1)])
+        a_start, a_end, a_step = (list(e["args"]) + [None, None, None])[:3]
+        ok_start = isinstance(a_start, Rat) and a_start.equals(piece(0))
+        ok_step = isinstance(a_step, Rat) and a_step.equals(want_step)
+        eps = None
+        if isinstance(a_end, Rat) and isinstance(a_step, Rat):
+            try:
+                eps = ((a_end - piece(-1)) * form.apply("abs", [a_step]) / a_step).const_value()
+            except form.Undefined:
+                eps = None
+        ok_end = eps is not None and 0 < eps <= Fraction(1, 100)
+        other = groups[3 - k][1] if (3 - k) in groups else None
+        leaks = [str(a)[:80] for a in (a_start, a_end, a_step) if isinstance(a, Rat) and other is not None and any(x is other for x in a.atoms(deep=True))]
+        loc_ = prog.loc(m, e["node"])
+        ctx.ob("C13.6", site, ok_start and ok_step, "group %d: a:b runs from a with step 1, a:s:b with step s" % k, loc=loc_,
+               msg="group %d of a vector: arange(start=%s, step=%s); expected start = first piece, step = second piece if three pieces else 1"
+                   % (k, str(a_start)[:80], str(a_step)[:160]))
+        ctx.ob("C13.6", site, ok_end, "group %d: the end point of a:b / a:s:b is included (small epsilon with the sign of the step)" % k, loc=loc_,
+               msg="group %d: arange stops at %s (epsilon %s): the end point is not included / too much is included" % (k, str(a_end)[:120], eps))
+        ctx.ob("C13.6", site, not leaks, "group %d is parsed from its own pieces only" % k, loc=loc_,
+               msg="group %d of a comma list depends on the pieces of the other group (%s): e.g. a step given in one group is re-used by the next"
+                   % (k, leaks[:1]))
+    for k in (1, 2):
+        evs = [e for e in gd_calls if e["iter"][0] == k]
+        if not evs or k not in groups:
+            ctx.ob("C13.6", site, False, "date ranges step with calendar arithmetic (get_date)", msg="no get_date call for group %d" % k)
+            continue
+        P, G = groups[k]
+        piece = lambda j: form.apply("getitem", [P, Rat.const(j)])
+        want_step = form.apply("ifexp", [form.apply("cmp_eq", [form.apply("len", [P]), Rat.const(3)]), piece(1), Rat.const(1)])
+        e = evs[0]
+        ok = len(e["args"]) == 2 and isinstance(e["args"][1], Rat) and e["args"][1].equals(want_step) and \
+            any(c.key() == "$is_date" and pol for c, pol in e["conds"] if isinstance(c, Rat))
+        first = e["args"][0].as_atom() if isinstance(e["args"][0], Rat) else None
+        ok_first = first is not None and first.func == "pymin" and isinstance(first.args[0], Rat) and first.args[0].equals(piece(0))
+        ctx.ob("C13.6", site, ok and ok_first, "group %d: date ranges start at the first date and step by calendar days (get_date(date, step))" % k,
+               loc=prog.loc(m, e["node"]), msg="group %d: dates advance by get_date(%s, %s)" % (k, str(e["args"][0])[:60], str(e["args"][1])[:120] if len(e["args"]) > 1 else "?"))
     gd = prog.func("verif.util.get_date")
     ok = "datetime.timedelta(diff)" in norm(gd) and "strftime('%Y%m%d')" in norm(gd)
     ctx.ob("C13.6", "verif.util.get_date", ok, "get_date adds whole days on the calendar", loc=prog.loc(m, gd), msg="get_date changed")
-    ctx.ob("C13.6", site, "values.append(float(colonList[0]))" in src and "commaLists = numbers.split(',')" in src and "colonList = commaList.split(':')" in src,
-           "comma separates items, colon separates start[:step]:end", loc=prog.loc(m, f), msg="the comma/colon grammar changed")
 
 
 def check_help(ctx, br):
